@@ -96,6 +96,8 @@ def cast_sequence(value, from_type, options):
 
 
 def cast_to_binary(value, from_type, options):
+    if value is None:
+        return None
     if isinstance(from_type, StringType):
         # noinspection PyTypeChecker
         return bytearray(value, 'utf-8')
@@ -299,7 +301,7 @@ def cast_to_float(value, from_type, options):
 
 
 def cast_value(value, options):
-    if value == "":
+    if value is None or value == "":
         return None
     if isinstance(value, datetime.datetime):
         return value.timestamp()
